@@ -16,4 +16,5 @@ def main : IO UInt32 :=
     | "c05trk" => C05Trk.check params lines
     | "c05gone" => C04.checkEng params lines
     | "c05ebg" => C06.check params lines
+    | "c05err" => C04.checkEng params lines
     | _ => { bad := [s!"unknown family {family}"] })
